@@ -516,6 +516,9 @@ func init() {
 					case 3:
 						if leaf && len(nd.Deps) == 0 {
 							nd.Namespace = "other"
+							if rng.Intn(2) == 0 {
+								nd.Replicas = 2 + rng.Intn(2) // replicated process outside the selected namespaces
+							}
 						}
 					}
 				}
